@@ -139,7 +139,9 @@ def write_replay(prop, failed, results, found):
         if o.unit == 'kani':
             doc['failed_obligations'].append({'id': o.id, 'function': o.fn, 'unit': 'kani harness (see /verif/kani)', 'repo_location': o.where,
                                               'reason': o.detail, 'verifier_cmd': 'cargo kani --harness %s (scratch copy of /repo with the harness appended)' % o.fn,
-                                              'verifier_output': [o.detail]})
+                                              'verifier_output': [o.detail], 'counterexample': getattr(o, 'counterexample', None)})
+            if getattr(o, 'counterexample', None) and o.counterexample.get('replayed_against_real_function'):
+                doc['failing_input'] = o.counterexample
             continue
         r = by_unit[o.unit]
         rendered = [e['rendered'] for e in r.errors if e['fn'] == o.fn][:6]
@@ -213,6 +215,7 @@ def run(prop, tier, seed, units, work, t0):
         o.backend = 'kani_complete' if k['strength'] == 'complete' else 'kani_bounded'
         o.status = k['status']
         o.detail = k.get('detail', '')
+        o.counterexample = k.get('counterexample')
         obls.append(o)
     failed = [o for o in obls if o.status == 'failed']
     open_known = {(k['property'], k['obligation']): k for k in known.get('open', [])}
@@ -290,6 +293,11 @@ def run(prop, tier, seed, units, work, t0):
             found = replay.search(prop, [o.id for o in new_fail], work)
         except Exception as e:
             print('[%s] replay search did not run: %s' % (prop, e))
+        if not found:
+            for o in new_fail:
+                c = getattr(o, 'counterexample', None)
+                if c and c.get('replayed_against_real_function'):
+                    found = c
         path = write_replay(prop, new_fail, results, found)
         for o in new_fail:
             print('[%s] FAILED obligation %s in %s (%s): %s' % (prop, o.id, o.fn, o.where, o.detail))
